@@ -543,5 +543,11 @@ func directedKeySets() []KeySet {
 	add("f3-within-limit", "a"+rep("x", 16000)+"1", "a"+rep("x", 16000)+"2", "b")
 	add("ff-prefix-half", "\xff\xff\xf0", "\xff\xff\xf1", "\xff\xff\xff")
 	add("prefix-chain", "", "a", "aa", "aaa", "aaaa", "aaaaa")
+	// more than 1024 levels
+	chain := make([]string, 0, 1500)
+	for i := 1; i <= 1500; i++ {
+		chain = append(chain, rep("a", i))
+	}
+	add("deep-chain-1500", chain...)
 	return out
 }
